@@ -162,8 +162,49 @@ def show(v):
     return repr(v)
 
 
+class TooBig(Exception):
+    """Raised by the guarded evaluation instead of computing an astronomically large int/str (the model says `undef` there)."""
+
+
+def _g_pow(a, b):
+    if isinstance(a, int) and isinstance(b, int) and b > 64 and abs(a) > 1:
+        raise TooBig()
+    return a ** b
+
+
+def _g_lshift(a, b):
+    if isinstance(a, int) and isinstance(b, int) and b > 4096:
+        raise TooBig()
+    return a << b
+
+
+def _g_mult(a, b):
+    if isinstance(a, int) and isinstance(b, int):
+        if a.bit_length() + b.bit_length() > 100000:
+            raise TooBig()
+    elif isinstance(a, (str, tuple)) and isinstance(b, int) and len(a) * b > 100000:
+        raise TooBig()
+    elif isinstance(b, (str, tuple)) and isinstance(a, int) and len(b) * a > 100000:
+        raise TooBig()
+    return a * b
+
+
+_GUARDS = {ast.Pow: '__g_pow', ast.LShift: '__g_lshift', ast.Mult: '__g_mult'}
+
+
+class _Guard(ast.NodeTransformer):
+    """a ** b, a << b, a * b -> calls of the guarded helpers (same operands, same order, same result unless astronomically large)."""
+
+    def visit_BinOp(self, node):
+        self.generic_visit(node)
+        name = _GUARDS.get(type(node.op))
+        if name is None:
+            return node
+        return ast.Call(func=ast.Name(id=name, ctx=ast.Load()), args=[node.left, node.right], keywords=[])
+
+
 def base_globals():
-    return {'mk': mk, '__builtins__': {'len': len}}
+    return {'mk': mk, '__g_pow': _g_pow, '__g_lshift': _g_lshift, '__g_mult': _g_mult, '__builtins__': {'len': len}}
 
 
 def envs(names, k, valset):
@@ -360,10 +401,17 @@ def check_renderers(tree):
 
 
 def compile_expr(node, filename='<verif>'):
-    """Compile an `ast` expression object (fresh locations) to a code object."""
-    e = ast.Expression(body=node)
+    """Compile an `ast` expression object (a private copy is expected: it is modified) to a code object whose evaluation is guarded
+    against astronomically large results (TooBig is raised instead)."""
+    compile(ast.fix_missing_locations(ast.Expression(body=node)), filename, 'eval')      # the object as given must be a valid expression
+    e = ast.Expression(body=_Guard().visit(node))
     ast.fix_missing_locations(e)
     return compile(e, filename, 'eval')
+
+
+def compile_src(src, filename='<verif>'):
+    """Compile source text to a guarded code object."""
+    return compile_expr(ast.parse(src, mode='eval').body, filename)
 
 
 # -- tables from TLC -----------------------------------------------------------------------------------------------------
